@@ -206,7 +206,7 @@ CHECKS["C06"] = dict(
          "for a collection of the own class); parse_fields visits every public own field once and no private one; fields drops what an ancestor maps; "
          "table name / base / primary key / mapper args for roots, children and stand-alone classes; one table per class, parents first, alternative "
          "mappings substituted; no set is iterated into the output. Level 'other': that the emitted text imports, configures and creates a schema is "
-         "SQLAlchemy's semantics and is decided by the bounded driver (30 / 1500 generated models x 2 orders, + determinism by text equality).",
+         "SQLAlchemy's semantics and is decided by the bounded driver (30 / 1000 generated models x 2 orders, + determinism by text equality).",
     note="Assumed: field classification (C17), the jinja template prints the records verbatim, SQLAlchemy / black / jinja2, deterministic topological sort.",
 )
 CHECKS["C07"] = dict(
